@@ -6,15 +6,19 @@ from .. import feccat
 from . import c01
 
 ID = "C03"
-KINDS = {"U": ["spanMin_sound", "reported_parameters", "min_distance", "cyclic_structure"],
-         "K": ["instances_ok (part0_ok .. part7_ok)", "known_bad_witness", "sphere_packing"]}
-PARTIAL = ["minimum distance is decided in Lean only for instances with k <= 13 (kernel enumeration budget); larger ones "
-           "(Hamming mu>=5, RM(2..4,5), BCH n>=31 with k>13, mu=6) are covered by the search oracle (enumeration k<=20 / MacWilliams n-k<=20) only",
+KINDS = {"U": ["spanMin_sound", "reported_parameters", "min_distance", "cyclic_structure", "DistInfo.info_bound (min_distance_large)"],
+         "K": ["instances_ok (part0_ok .. part7_ok)", "known_bad_witness", "sphere_packing", "info_instances_ok (info0_ok .. info5_ok)",
+               "info_instances_in_catalogue"]}
+PARTIAL = ["minimum distance is decided in Lean for instances with k <= 13 (full enumeration) and for larger ones whose information-set "
+           "enumeration fits the kernel budget (Hamming mu=5,6, RM(2..4,5), BCH n=31, BCH(63,57)); the remaining ones (listed in evidence "
+           "`distance_not_decided_in_lean`) are covered by the search oracle (enumeration k<=20 / MacWilliams n-k<=20) only",
            "'consist of the multiples of g': proved as every generator row is a multiple of g, deg g = n-k, g | X^n+1"]
 RULE = "enc lines on all messages (k <= 8 quick / 12 thorough) tie the set of words to the published G; non-trivial = non-zero message"
 ASSUMPTIONS = c01.ASSUMPTIONS + ["advertised values are read through code_length, code_dimension, minimum_distance / minimum_distance(), delta, generator_poly"]
 NPARTS = 8
 KDEC = 13
+NIPARTS = 6
+INFO_LEAVES = 40000      # information-set enumeration budget (kernel: ~150 leaves/s)
 
 EXACT_FAMILIES = ("hamming", "golay", "repetition", "spc", "reed_muller")
 CYCLIC_FAMILIES = ("cyclic", "cyclic_std", "bch")
@@ -107,6 +111,19 @@ def find_order(rows, n, g):
     return None
 
 
+def info_cert(d):
+    """information set (pivot columns of G), inverse of G restricted to it, even-weight flag, enumeration size"""
+    from math import comb
+    G = np.array([[(g >> p) & 1 for p in range(d["n"])] for g in d["G"]], dtype=np.uint8)
+    _, T, piv = feccat.rref(G)
+    if len(piv) != d["k"]:
+        return None
+    even = all(weight(g) % 2 == 0 for g in d["G"]) and d["advD"] % 2 == 0 and d["advD"] >= 2
+    w = d["advD"] - 2 if even else d["advD"] - 1
+    leaves = sum(comb(d["k"], j) for j in range(w + 1))
+    return dict(pos=[int(c) for c in piv], M=feccat.masks(T), even=even, leaves=leaves)
+
+
 _DATA = {}
 
 
@@ -168,9 +185,33 @@ def extract(ctx):
         files["C03P%d" % j] = ("-- generated from /repo: advertised parameters, generator matrices, generator polynomials (part %d)\n"
                                "import Kaira.Dist\nopen Kaira.Dist\nnamespace Generated.C03P%d\ndef part : List DistInst := [\n" % (j, j)
                                + ",\n".join(parts[j]) + "]\nend Generated.C03P%d\n" % j)
-    files["C03"] = ("".join("import Generated.C03P%d\n" % j for j in range(NPARTS)) + "open Kaira.Dist\nnamespace Generated.C03\n"
-                    "def instances : List DistInst := " + " ++ ".join("Generated.C03P%d.part" % j for j in range(NPARTS)) + "\nend Generated.C03\n")
-    nd = [n for n, d in data(ctx).items() if d["advD"] and not d["decided"]]
+    files["C03"] = ("".join("import Generated.C03P%d\n" % j for j in range(NPARTS)) + "".join("import Generated.C03I%d\n" % j for j in range(NIPARTS))
+                    + "open Kaira.Dist\nnamespace Generated.C03\n"
+                    "def instances : List DistInst := " + " ++ ".join("Generated.C03P%d.part" % j for j in range(NPARTS)) + "\n"
+                    "def infoInstances : List InfoInst := " + " ++ ".join("Generated.C03I%d.part" % j for j in range(NIPARTS)) + "\nend Generated.C03\n")
+    # information-set bound for the instances the plain enumeration cannot reach
+    iparts = [[] for _ in range(NIPARTS)]
+    iload = [0] * NIPARTS
+    by_info, nd = [], []
+    cand = []
+    for name, d in data(ctx).items():
+        if d["advD"] and not d["decided"] and not d["knownBad"]:
+            ic = info_cert(d)
+            if ic and ic["leaves"] <= INFO_LEAVES:
+                cand.append((name, d, ic))
+            else:
+                nd.append(name)
+    for name, d, ic in sorted(cand, key=lambda t: -t[2]["leaves"]):
+        j = iload.index(min(iload))
+        iparts[j].append('  { name := "%s", n := %d, k := %d, G := %s, advD := %d, pos := %s, M := %s, even := %s }'
+                         % (name, d["n"], d["k"], lst(d["G"]), d["advD"], lst(ic["pos"]), lst(ic["M"]), b(ic["even"])))
+        iload[j] += ic["leaves"] * max(1, d["advD"]) + 200
+        by_info.append(name)
+    for j in range(NIPARTS):
+        files["C03I%d" % j] = ("-- generated from /repo: information-set certificates for codes with k > %d (part %d)\n"
+                               "import Kaira.Dist\nopen Kaira.Dist\nnamespace Generated.C03I%d\ndef part : List InfoInst := [\n" % (KDEC, j, j)
+                               + ",\n".join(iparts[j]) + "]\nend Generated.C03I%d\n" % j)
+    ctx.extra["distance_decided_by_information_set_bound"] = sorted(by_info)
     ctx.extra["distance_not_decided_in_lean"] = nd
     return files
 
